@@ -1,17 +1,25 @@
 """C19 - PRINT USING fields keep their width, rounding and overflow mark.
 Theorems: coq/Props/C19.v (model Models/Using.v + the USING branch of
 Models/Print.v, specification Models/UsingSpec.v).  Correspondence:
-  A  the real PrintUsingFormatter (scanner result, text, host exception) on all
-     format strings up to a length over a 10-character alphabet x value lists,
-  B  the real TerminalDevice._exec_print USING hand-over on constructed stacks,
-  C  compiled PRINT USING statements at the six configurations,
-against the extracted model; every agreed result is then judged against the
-Coq specification (inside the guard) and against "no host exception"."""
+  scanner    fmt_parts of the real PrintUsingFormatter on every format string
+             up to a length over a 10-character alphabet,
+  formatter  the real PrintUsingFormatter(fmt).format(values) (text and host
+             exception) on those formats x value lists,
+  exec_print_using  the real TerminalDevice._exec_print USING hand-over on
+             constructed stacks,
+  compiled_using    compiled PRINT USING statements at the six configurations,
+against the extracted model.  Every result on which model and code agree is
+then judged against the Coq specification (Models/UsingSpec.v: equal inside
+the guard - theorem C19_using_partial -, a listed defect class outside) and
+against "no host exception"."""
+import glob
 import itertools
 import json
+import os
+import random
 import struct
 import vlib
-from vlib import Ctx, l2s, s2l
+from vlib import Ctx, l2s
 
 PROP = 'C19'
 
@@ -38,20 +46,24 @@ NUM = [
     (['I', 0], '0'), (['S', fb(2.0)], '2!'), (['D', fb(123456.789)], '123456.789#'),
     (['D', fb(-99.995)], '-99.995#'), (['I', 55], '55'), (['I', -55], '-55'),
 ]
-STR = [(['$', ''], '""'), (['$', 'a'], '"a"'), (['$', 'hello'], '"hello"')]
+STR = [(['$', 'a'], '"a"'), (['$', 'hello'], '"hello"'), (['$', 'x y,'], '"x y,"')]
+EMPTY = (['$', ''], '""')
 # values far from the everyday range: only in a small separate stream (the
 # extracted model does exact big-integer decimal conversion on them)
 EXTREME = [['D', fb(1e22)], ['D', fb(5e-324)], ['D', fb(1.7976931348623157e308)],
            ['D', fb(float('inf'))], ['D', fb(float('-inf'))], ['D', 0x7ff8000000000000],
            ['D', fb(1e-7)], ['S', fb(sgl(16777216.0))], ['L', 2147483647], ['L', -2147483648],
-           ['D', fb(9007199254740993.0)], ['D', fb(0.3)], ['D', fb(2.675)], ['D', fb(1.005)]]
+           ['D', fb(9007199254740993.0)], ['D', fb(0.3)], ['D', fb(2.675)], ['D', fb(1.005)],
+           ['D', fb(-1e-300)], ['S', fb(sgl(3.4e38))], ['D', fb(0.045)], ['D', fb(8.5)]]
 MC = {'I': 1, 'L': 2, 'S': 3, 'D': 4, '$': 5}
 EXC = {'IndexError': 1, 'RuntimeError': 2, 'TypeError': 3, 'OverflowError': 4,
        'ValueError': 5, 'AttributeError': 6}
+EXCN = {v: k for k, v in EXC.items()}
 
 REASON = {1: 'float-without-decimal-point', 2: 'trailing-sign-after-decimals',
           3: 'comma-after-point', 4: 'point-without-decimals', 5: 'trailing-sign-nonnegative',
-          6: 'not-finite', 7: 'int-too-big', 10: 'trailing-underscore', 11: 'too-few-values',
+          6: 'not-finite', 7: 'int-too-big', 9: 'malformed-options',
+          10: 'trailing-underscore', 11: 'too-few-values',
           12: 'too-many-values', 13: 'number-for-string-field', 14: 'string-for-numeric-field',
           15: 'bang-empty-string', 16: 'empty-values'}
 # text defects (D24 and relatives): signature by the first reason present, in this order
@@ -84,17 +96,18 @@ def formats(maxlen, minlen=0):
 def field_kinds(parts):
     """parts: model result of job 2 -> list of 'n' / 's' per field, or None
     when the scanner crashes"""
-    if parts[0] != 0:
+    if isinstance(parts, str) or parts[0] != 0:
         return None
     return ['n' if p[0] == 2 else 's' for p in parts[1] if p[0] != 0]
 
 
 def value_lists(kinds, nlists, off=0):
-    """matched lists: list j gives field i the value (j + 7 i) of its own kind;
-    then a too-short, a too-long and two type-rotated lists"""
-    out = []
+    """matched lists: list j gives field i the value (off + j + 7 i) of its
+    own kind; then the malformed stream: too few, too many, any type, swapped
+    types, empty strings"""
     if not kinds:
-        return [[], [NUM[3][0]], [STR[2][0]]]
+        return [[], [NUM[3][0]], [STR[1][0]]]
+    out = []
     k = len(kinds)
     for j in range(nlists):
         vs = []
@@ -102,11 +115,14 @@ def value_lists(kinds, nlists, off=0):
             pool = NUM if kd == 'n' else STR
             vs.append(pool[(off + j + 7 * i) % len(pool)][0])
         out.append(vs)
-    allv = [v[0] for v in NUM] + [v[0] for v in STR]
-    out.append([allv[(off + 3 * i) % len(allv)] for i in range(k - 1)])      # too few
+    allv = [v[0] for v in NUM] + [v[0] for v in STR] + [EMPTY[0]]
+    out.append(out[0][:-1])                                                 # too few
     out.append(out[0] + [NUM[12][0]])                                       # too many
     out.append([allv[(off + 11 + 5 * i) % len(allv)] for i in range(k)])    # any type
     out.append([(STR if kd == 'n' else NUM)[(off + i) % 3][0] for i, kd in enumerate(kinds)])
+    if 's' in kinds:
+        out.append([EMPTY[0] if kd == 's' else NUM[(off + i) % len(NUM)][0]
+                    for i, kd in enumerate(kinds)])
     return out
 
 
@@ -128,10 +144,10 @@ def first_crash_reason(reasons, novalues=False):
     return None
 
 
-def judge(ctx, suite, case, impl, model, reasons, spec, text, novalues=False, sep_end=None):
-    """impl/model: [0, calls-or-text] | [2, exckind] | [1] (trap).  spec: text
-    demanded by the specification or None.  Returns True when nothing was
-    reported."""
+def judge(ctx, suite, case, impl, model, reasons, spec, text, novalues=False):
+    """impl/model: [0, text-or-calls] | [2, exckind] | [1] (trap).  spec: what
+    the specification demands, or None where it is silent.  Returns the
+    verdict: 'ok' | 'known' | 'violation'."""
     detail = {'suite': suite, 'case': case, 'impl': impl, 'model': model,
               'reasons': [REASON.get(r, r) for r in reasons], 'spec': spec, 'text': text}
     if impl != model:
@@ -139,47 +155,48 @@ def judge(ctx, suite, case, impl, model, reasons, spec, text, novalues=False, se
         # is exhibited when the specification speaks and is contradicted, or
         # when a host exception escapes.
         contradicts = (impl[0] == 2) or (spec is not None and impl != [0, spec])
-        ctx.report(f'C19/{suite}-differs-from-model', detail, contradicts)
-        return False
+        return ctx.report(f'C19/{suite}-differs-from-model', detail, contradicts)
     if impl[0] == 2:
         r = first_crash_reason(reasons, novalues)
-        exc = [k for k, v in EXC.items() if v == impl[1]]
-        exc = exc[0] if exc else 'other'
+        exc = EXCN.get(impl[1], 'other')
         if r is None or CRASH_EXC[r] != exc:
-            ctx.report(f'C19/host-exception({exc},unexplained)', detail, True)
-        else:
-            ctx.report(f'C19/crash({exc},{REASON[r]})', detail, True)
-        return False
+            return ctx.report(f'C19/host-exception({exc},unexplained)', detail, True)
+        return ctx.report(f'C19/crash({exc},{REASON[r]})', detail, True)
     if impl[0] == 1:
-        ctx.report('C19/unexpected-trap', detail, True)
-        return False
-    if spec is None:
-        return True
-    if impl == [0, spec]:
-        return True
-    text_reasons = [r for r in reasons if r < 10]
+        return ctx.report('C19/unexpected-trap', detail, True)
+    if spec is None or impl == [0, spec]:
+        return 'ok'
     for r, sig in TEXT_SIG:
-        if r in text_reasons:
-            ctx.report(sig, detail, True)
-            return False
-    # inside the guard the theorem C19_using_partial says model = spec
-    ctx.report('C19/specification-violated(inside-guard)', detail, True)
-    return False
+        if r in reasons:
+            return ctx.report(sig, detail, True)
+    # inside the guard theorem C19_using_partial says model = specification
+    return ctx.report('C19/specification-violated(inside-guard)', detail, True)
 
 
-def run_formatter_suite(ctx, exe, suite, cases, nontrivial=True):
-    """cases: {'fmt', 'vals'}.  Compares scanner parts, text/exception with the
-    model, then judges against the specification."""
-    raws = vlib.run_impl('usingfn.fmt_values', cases)
-    mouts = vlib.run_model(exe, [[3, c['fmt'], [mval(v) for v in c['vals']]] for c in cases])
-    for c, raw, mo in zip(cases, raws, mouts):
+def bad_results(ctx, suite, raws, *mouts):
+    for raw in raws:
         if isinstance(raw, dict) and raw.get('harness'):
             ctx.broken.append(f'correspondence {suite}: implementation worker failed: '
                               f'{raw.get("stderr", "")[-300:]}')
-            break
-        if isinstance(mo, str) or mo == [-999, -999, -999]:
-            ctx.broken.append(f'correspondence {suite}: model driver failed ({mo}) on {c!r}')
-            break
+            return True
+    for mo in mouts:
+        for m in mo:
+            if isinstance(m, str) or m == [-999, -999, -999]:
+                ctx.broken.append(f'correspondence {suite}: model driver failed ({m})')
+                return True
+    return False
+
+
+def run_formatter_suite(ctx, exe, suite, cases):
+    """cases: {'fmt', 'vals'}: text / exception of the real formatter vs the
+    model, then the specification"""
+    raws = vlib.run_impl('usingfn.fmt_values', cases)
+    mouts = vlib.run_model(exe, [[3, c['fmt'], [mval(v) for v in c['vals']]] for c in cases])
+    verdicts = []
+    run_formatter_suite.last_raws = raws
+    if bad_results(ctx, suite, raws, mouts):
+        return verdicts
+    for c, raw, mo in zip(cases, raws, mouts):
         if 'ctor_exc' in raw:
             impl = [2, EXC.get(raw['ctor_exc'], 99)]
         elif 'exc' in raw:
@@ -190,37 +207,39 @@ def run_formatter_suite(ctx, exe, suite, cases, nontrivial=True):
         model = [0, l2s(m[1])] if m[0] == 0 else m
         spec = l2s(mo[2][0]) if mo[2] else None
         text = f"USING {c['fmt']!r}; " + ', '.join(cell_text(v) for v in c['vals'])
-        ok = judge(ctx, suite, c, impl, model, mo[1], spec, text)
-        ctx.bump('formatter:' + ('crash' if impl[0] == 2 else
-                                 'in-guard' if not mo[1] else 'out-of-guard-text'))
-    ctx.count(suite, len(cases),
-              set(json.dumps([c['fmt'], c['vals']]) for c in cases) if nontrivial else ())
+        verdicts.append(judge(ctx, suite, c, impl, model, mo[1], spec, text))
+        ctx.bump(suite + ':' + ('host-exception' if impl[0] == 2 else
+                                'inside-guard' if not mo[1] else 'text-outside-guard'))
+    ctx.count(suite, len(cases), set(json.dumps([c['fmt'], c['vals']]) for c in cases))
     if cases:
         c = cases[len(cases) // 2]
         ctx.sample({'suite': suite, 'case': f"USING {c['fmt']!r}; " +
                     ', '.join(cell_text(v) for v in c['vals'])})
+    return verdicts
 
 
-def scanner_suite(ctx, exe, fmts):
-    """the scanner alone: fmt_parts of the real constructor vs parse_format"""
-    raws = vlib.run_impl('usingfn.fmt_values', [{'fmt': f, 'vals': []} for f in fmts])
-    parts = vlib.run_model(exe, [[2, f] for f in fmts])
+def scanner_suite(ctx, exe, fmts, raws=None, parts=None):
+    """the scanner alone: fmt_parts of the real constructor vs parse_format.
+    raws: results of usingfn.fmt_values for the formats when they were already
+    obtained by the formatter suite (the constructor result does not depend on
+    the values)"""
+    if raws is None:
+        raws = vlib.run_impl('usingfn.fmt_values', [{'fmt': f, 'vals': []} for f in fmts])
+    if parts is None:
+        parts = vlib.run_model(exe, [[2, f] for f in fmts])
+    if bad_results(ctx, 'scanner', raws, parts):
+        return parts
     for f, raw, p in zip(fmts, raws, parts):
-        if isinstance(raw, dict) and raw.get('harness'):
-            ctx.broken.append('correspondence scanner: implementation worker failed: '
-                              f'{raw.get("stderr", "")[-300:]}')
-            break
-        if isinstance(p, str):
-            ctx.broken.append(f'correspondence scanner: model driver failed ({p}) on {f!r}')
-            break
         if 'ctor_exc' in raw:
             impl = [2, EXC.get(raw['ctor_exc'], 99)]
         else:
             impl = [0, raw['parts']]
         if impl != p:
             ctx.report('C19/scanner-differs-from-model',
-                       {'suite': 'scanner', 'fmt': f, 'impl': impl, 'model': p},
-                       False)
+                       {'suite': 'scanner', 'case': {'fmt': f}, 'impl': impl, 'model': p,
+                        'text': f'PrintUsingFormatter({f!r}).fmt_parts'}, False)
+        ctx.bump('scanner:' + ('trailing-underscore' if impl[0] == 2 else
+                               f'{sum(1 for x in impl[1] if x[0] != 0)}-fields'))
     ctx.count('scanner', len(fmts), set(fmts))
     return parts
 
@@ -242,13 +261,17 @@ def enc_stack(fmt, items):
     return st
 
 
-def stmt_source(fmt, items, lits):
+LITS = {json.dumps(c): s for c, s in NUM + STR + [EMPTY] if s is not None}
+LITS[json.dumps(['D', fb(-1.5)])] = '-1.5#'
+
+
+def stmt_source(fmt, items):
     parts = []
     for it in items:
         if it in (';', ','):
             parts.append(it)
         else:
-            parts.append(' ' + lits[json.dumps(it)] + ' ')
+            parts.append(' ' + LITS[json.dumps(it)] + ' ')
     return f'PRINT USING "{fmt}";' + ''.join(parts)
 
 
@@ -263,17 +286,92 @@ def stmt_items(vals, seps, end):
     return items
 
 
-def judge_stmt(ctx, suite, exe_out, case, impl, text):
-    """exe_out = (model pout of job 4, [ures, reasons, spec] of job 3)"""
-    mp, mo = exe_out
+def stmt_model(exe, cases):
+    mp = vlib.run_model(exe, [[4, [mval(x) for x in enc_stack(c['fmt'], c['items'])]] for c in cases])
+    mo = vlib.run_model(exe, [[3, c['fmt'], [mval(x) for x in c['items'] if x not in (';', ',')]]
+                              for c in cases])
+    return mp, mo
+
+
+def judge_stmt(ctx, suite, mp, mo, case, impl, text):
+    """mp = model pout (job 4), mo = [ures, reasons, spec] (job 3)"""
     model = [0, [l2s(x) for x in mp[1]]] if mp[0] == 0 else mp
-    vals = [it for it in case['items'] if it not in (';', ',')]
     ends = bool(case['items']) and case['items'][-1] in (';', ',')
     spec = None
     if mo[2]:
         spec = [l2s(mo[2][0])] + ([] if ends else ['\r\n'])
-    novalues = not case['items']
-    return judge(ctx, suite, case, impl, model, mo[1], spec, text, novalues=novalues)
+    return judge(ctx, suite, case, impl, model, mo[1], spec, text, novalues=not case['items'])
+
+
+def run_stack_suite(ctx, exe, cases):
+    suite = 'exec_print_using'
+    stacks = [enc_stack(c['fmt'], c['items']) for c in cases]
+    raws = vlib.run_impl('usingfn.exec_print', [st + [['I', len(st)]] for st in stacks])
+    mp, mo = stmt_model(exe, cases)
+    verdicts = []
+    if bad_results(ctx, suite, raws, mp, mo):
+        return verdicts
+    for c, raw, p, o in zip(cases, raws, mp, mo):
+        text = 'stack of: PRINT USING ' + repr(c['fmt']) + '; ' + \
+            ' '.join(x if isinstance(x, str) else cell_text(x) for x in c['items'])
+        if 'exc' in raw:
+            impl = [2, EXC.get(raw['exc'], 99)]
+        elif raw['res'] == 'trap':
+            impl = [1]
+        else:
+            impl = [0, [l2s(x) for x in raw['calls']]]
+            if raw['stack'] != 0 or raw['others']:
+                ctx.report('C19/exec-print-leaves-state', {'suite': suite, 'case': c, 'raw': raw,
+                                                           'text': text}, True)
+        verdicts.append(judge_stmt(ctx, suite, p, o, c, impl, text))
+    ctx.count(suite, len(cases), set(json.dumps(c) for c in cases))
+    if cases:
+        ctx.sample({'suite': suite, 'case': json.dumps(cases[len(cases) // 3])})
+    return verdicts
+
+
+def run_compiled_suite(ctx, exe, cases):
+    suite = 'compiled_using'
+    raws = vlib.run_impl('usingfn.run_src', cases)
+    mp, mo = stmt_model(exe, cases)
+    verdicts = []
+    if bad_results(ctx, suite, raws, mp, mo):
+        return verdicts
+    for c, raw, p, o in zip(cases, raws, mp, mo):
+        text = f"-O{c['level']}{' -g' if c['debug'] else ''}: {c['src']}"
+        if 'exc' in raw and 'events' not in raw:
+            # the compiler (not the machine) raised: not a PRINT USING matter,
+            # but the statement generator promises compilable statements
+            verdicts.append(ctx.report(f"C19/compile-failed({raw['exc']})",
+                                       {'suite': suite, 'case': c, 'raw': raw, 'text': text}, False))
+            continue
+        calls = [l2s(e[1]) for e in raw['events'] if e[0] == 'terminal_print']
+        if 'exc' in raw:
+            impl = [2, EXC.get(raw['exc'], 99)]
+            if calls:
+                ctx.report('C19/output-before-crash', {'suite': suite, 'case': c, 'raw': raw,
+                                                       'text': text}, True)
+        elif raw['outcome'][1] is not None:
+            impl = [1]
+        else:
+            impl = [0, calls]
+            if raw['stack'] != 0:
+                ctx.report('C19/compiled-statement-leaves-stack',
+                           {'suite': suite, 'case': c, 'raw': raw, 'text': text}, True)
+        verdicts.append(judge_stmt(ctx, suite, p, o, c, impl, text))
+        ctx.bump(f"compiled:-O{c['level']}{'-g' if c['debug'] else ''}")
+    ctx.count(suite, len(cases), set(c['src'] for c in cases))
+    if cases:
+        ctx.sample({'suite': suite, 'case': cases[len(cases) // 2]['src']})
+    return verdicts
+
+
+SUITE_RUNNERS = {
+    'formatter': lambda ctx, exe, cs: run_formatter_suite(ctx, exe, 'formatter', cs),
+    'formatter_extreme': lambda ctx, exe, cs: run_formatter_suite(ctx, exe, 'formatter_extreme', cs),
+    'exec_print_using': run_stack_suite,
+    'compiled_using': run_compiled_suite,
+}
 
 
 def main(tier, seed):
@@ -287,66 +385,89 @@ def main(tier, seed):
         'qvm/machine.py TerminalDevice._exec_print and qbee/qvm_codegen.py gen_print_stmt (Models/Print.v); '
         "Python's format(), repr(float) and str.format are re-implemented in Base/Dec.v + Models/Using.v and "
         'compared on every run; the PRINT USING grammar is inside the correspondence only',
-        'the specification (Models/UsingSpec.v) takes the field boundaries from the scanner; it adds a ghost '
-        'field o_frac (number of # after the point) to the scanner model, never read by the renderer',
+        'the specification (Models/UsingSpec.v) takes the field boundaries from the scanner model; the '
+        'scanner model carries a ghost field o_frac (number of # after the point), never read by the renderer',
     ]
+    import time
+    phase = ctx.extra.setdefault('phase_s', {})
+    t0 = time.time()
+
+    def mark(name):
+        nonlocal t0
+        phase[name] = round(time.time() - t0, 1)
+        t0 = time.time()
     ctx.prove()
     exe = ctx.model('Using')
+    mark('coq+extraction')
     quick = tier == 'quick'
+    # one generator per suite, so that the quick cases are a prefix / subset of
+    # the thorough ones for the same seed
+    rngA, rngC = random.Random(f'{seed}-A'), random.Random(f'{seed}-C')
 
-    # ---- scanner on every format string up to a length
+    # ---- scanner + suite A (formatter) on every format string up to a length
     smax = 4 if quick else 6
     fmts_all = list(formats(smax))
-    if not quick:
-        # length 6 is 10^6 strings: all of them go through the scanner suite
-        pass
-    parts_all = scanner_suite(ctx, exe, fmts_all)
-    kinds_of = {f: field_kinds(p) for f, p in zip(fmts_all, parts_all) if not isinstance(p, str)}
-    ctx.rule.append(f'scanner: every format string of length <= {smax} over the {len(ALPHA)} characters '
-                    f'{ALPHA!r}: fmt_parts of the real constructor = parse_format')
-
-    # ---- suite A: formatter
+    parts_all = vlib.run_model(exe, [[2, f] for f in fmts_all])
+    kinds_of = {f: field_kinds(p) for f, p in zip(fmts_all, parts_all)}
     casesA = []
-    nl4 = len(NUM)
+    first_case = {}
+    nl3, nl4 = len(NUM), 6
     for f in fmts_all:
         n = len(f)
         kinds = kinds_of.get(f)
-        if n <= 4:
-            lists = value_lists(kinds, nl4)
-        elif n == 5:
-            lists = value_lists(kinds, 6, off=ctx.rng.randrange(len(NUM)))
+        if n <= 3:
+            lists = value_lists(kinds, nl3)
+        elif n == 4:
+            lists = value_lists(kinds, nl4, off=rngA.randrange(len(NUM)))
+        elif n == 5 and (kinds or rngA.random() < 0.25):
+            # length 5: every format with a field, a seeded quarter of the others
+            lists = value_lists(kinds, 4, off=rngA.randrange(len(NUM)))
+        elif n == 6 and rngA.random() < 0.1:
+            # length 6: a seeded tenth of the strings, 2 matched lists each
+            lists = value_lists(kinds, 2, off=rngA.randrange(len(NUM)))
         else:
-            # length 6: a seeded tenth of the strings, 3 matched lists each
-            if ctx.rng.random() >= 0.1:
-                continue
-            lists = value_lists(kinds, 3, off=ctx.rng.randrange(len(NUM)))
+            lists = [[]]        # scanner only (and the formatter without values)
+        first_case[f] = len(casesA)
         for vs in lists:
             casesA.append({'fmt': f, 'vals': vs})
-    ctx.rule.append(f'A: PrintUsingFormatter(fmt).format(values) for every format of length <= 4 x '
-                    f'{nl4} matched value lists (field i gets value (j+7i) of its kind out of {len(NUM)} '
+    ctx.rule.append(f'formatter: PrintUsingFormatter(fmt).format(values) for every format of length <= 3 x '
+                    f'{nl3} matched value lists (field i gets value (j+7i) of its kind out of {len(NUM)} '
                     f'numbers: zero, ties .5 1.5 2.5 .125, carries 9.995 99.5 999.5, negatives, -0.0, '
-                    f'too wide, SINGLE/INTEGER/LONG; 3 strings) + too few, too many, 2 type-mismatched lists'
-                    + ('' if quick else '; length 5: every format x 6 seeded-offset lists + malformed; '
-                       'length 6: a seeded tenth x 3 lists + malformed')
+                    f'too wide, SINGLE/INTEGER/LONG; 3 strings) + malformed stream (too few, too many, '
+                    f'any type, swapped types, empty strings); length 4: every format x {nl4} lists from a '
+                    f'seeded offset + malformed'
+                    + ('' if quick else '; length 5: every format with a field (a seeded quarter of the '
+                       'others) x 4 lists + malformed; length 6: a seeded tenth x 2 lists + malformed, the '
+                       'rest without values')
                     + '; non-trivial = distinct (format, values)')
     run_formatter_suite(ctx, exe, 'formatter', casesA)
+    mark('formatter')
+    rawsA = run_formatter_suite.last_raws or []
+    if len(rawsA) == len(casesA):
+        scanner_suite(ctx, exe, fmts_all, [rawsA[first_case[f]] for f in fmts_all], parts_all)
+    ctx.rule.append(f'scanner: every format string of length <= {smax} over the {len(ALPHA)} characters '
+                    f'{ALPHA!r} ({len(fmts_all)}): fmt_parts of the real constructor = parse_format '
+                    f'(constructor results taken from the formatter runs)')
+    mark('scanner')
 
     # extreme values on the numeric field shapes
     shapes = ['#', '###', '#.##', '##.#', '#,###.##', '+#.#', '#.#-', '##+', '-##', '#.', '#,#',
-              '####################', '#.####################', '##,.#']
+              '####################', '#.####################', '##,.#', '######,.###']
     casesX = [{'fmt': f, 'vals': [v]} for f in shapes for v in EXTREME + [n[0] for n in NUM]]
     run_formatter_suite(ctx, exe, 'formatter_extreme', casesX)
-    ctx.rule.append(f'A2: {len(shapes)} field shapes x {len(EXTREME) + len(NUM)} values incl. 5e-324, '
-                    f'1.8e308, 1e22, inf, nan, LONG limits')
+    mark('formatter_extreme')
+    ctx.rule.append(f'formatter_extreme: {len(shapes)} field shapes x {len(EXTREME) + len(NUM)} values incl. '
+                    f'5e-324, 1.8e308, 1e22, inf, nan, LONG limits, 2^53+1')
 
     # ---- suite B: _exec_print hand-over on constructed stacks
     bf = [f for f in formats(2)] + ['#.#', '##-', '+##', '& #', '!_!', '#,#', 'a#b', '## ##', '&&', '# &']
     casesB = []
     seps_opts = [[';'], [','], [';', ',']]
     for f in bf:
-        kinds = kinds_of.get(f) if f in kinds_of else None
-        k = len(kinds) if kinds else 0
-        for vl in value_lists(kinds, 3 if quick else 8):
+        if f not in kinds_of:
+            kinds_of[f] = field_kinds(vlib.run_model(exe, [[2, f]])[0])
+        kinds = kinds_of[f]
+        for vl in value_lists(kinds, 2 if quick else 8):
             for end in (None, ';', ','):
                 for seps in (seps_opts if len(vl) > 1 else seps_opts[:1]):
                     casesB.append({'fmt': f, 'items': stmt_items(vl, seps, end)})
@@ -354,120 +475,111 @@ def main(tier, seed):
         v = NUM[12][0]
         for items in ([';'], [','], [';', v], [',', v, ';', ';'], [v, ';', ',', v]):
             casesB.append({'fmt': f, 'items': items})
-    rawsB = vlib.run_impl('usingfn.exec_print',
-                          [enc_stack(c['fmt'], c['items']) + [['I', len(enc_stack(c['fmt'], c['items']))]]
-                           for c in casesB])
-    mB = vlib.run_model(exe, [[4, [mval(x) for x in enc_stack(c['fmt'], c['items'])]] for c in casesB])
-    sB = vlib.run_model(exe, [[3, c['fmt'], [mval(x) for x in c['items'] if x not in (';', ',')]]
-                              for c in casesB])
-    for c, raw, mp, mo in zip(casesB, rawsB, mB, sB):
-        if isinstance(raw, dict) and raw.get('harness'):
-            ctx.broken.append('correspondence exec_print_using: implementation worker failed')
-            break
-        if isinstance(mp, str) or isinstance(mo, str):
-            ctx.broken.append(f'correspondence exec_print_using: model driver failed on {c!r}')
-            break
-        if 'exc' in raw:
-            impl = [2, EXC.get(raw['exc'], 99)]
-        elif raw['res'] == 'trap':
-            impl = [1]
-        else:
-            impl = [0, [l2s(x) for x in raw['calls']]]
-            if raw['stack'] != 0 or raw['others']:
-                ctx.report('C19/exec-print-leaves-state', {'case': c, 'raw': raw}, True)
-        text = 'stack: USING ' + repr(c['fmt']) + '; ' + \
-            ' '.join(x if isinstance(x, str) else cell_text(x) for x in c['items'])
-        judge_stmt(ctx, 'exec_print_using', (mp, mo), c, impl, text)
-    ctx.count('exec_print_using', len(casesB), set(json.dumps(c) for c in casesB))
-    ctx.sample({'suite': 'exec_print_using', 'case': json.dumps(casesB[len(casesB) // 3])})
-    ctx.rule.append(f'B: real TerminalDevice._exec_print on the cells of PRINT USING for {len(bf)} formats '
-                    f'(all of length <= 2 + 10 longer) x value lists x separators ; , mixed x ending '
-                    f'none ; , + separators in odd places and no values')
+    run_stack_suite(ctx, exe, casesB)
+    mark('exec_print_using')
+    ctx.rule.append(f'exec_print_using: real TerminalDevice._exec_print on the cells of PRINT USING for '
+                    f'{len(bf)} formats (all of length <= 2 + 10 longer) x value lists x separators ; , '
+                    f'mixed x ending none ; , + separators in odd places and no values')
 
     # ---- suite C: compiled statements
-    lits = {json.dumps(c): s for c, s in NUM + STR if s is not None}
+    d15 = ['D', fb(-1.5)]
     witnesses = [
-        ('###', [NUM[11][0]], None), ('##.##-', [['D', fb(-1.5)]], None), ('x', [], None),
-        ('!', [STR[0][0]], None), ('a_', [NUM[12][0]], None), ('#', [NUM[12][0], NUM[20][0]], ';'),
-        ('# #', [NUM[12][0]], None), ('&', [NUM[12][0]], None), ('#', [STR[1][0]], None),
+        ('###', [NUM[11][0]], None), ('##.##-', [d15], None), ('x', [], None),
+        ('!', [EMPTY[0]], None), ('a_', [NUM[12][0]], None), ('#', [NUM[12][0], NUM[20][0]], ';'),
+        ('# #', [NUM[12][0]], None), ('&', [NUM[12][0]], None), ('#', [STR[0][0]], None),
         ('##+', [NUM[24][0]], None), ('##-', [NUM[24][0]], ';'), ('#.', [NUM[3][0]], None),
         ('#.#,', [NUM[14][0]], ','), ('##.##', [NUM[5][0]], None), ('#,###.#', [NUM[8][0]], None),
-        ('+##.#', [NUM[4][0]], None), ('& and !_!', [STR[2][0], STR[2][0]], None),
+        ('+##.#', [NUM[4][0]], None), ('& and !_!', [STR[1][0], STR[1][0]], None),
+        ('##.## ##.##', [NUM[14][0], NUM[3][0]], ','), ('###-', [NUM[25][0]], None),
     ]
-    lits[json.dumps(['D', fb(-1.5)])] = '-1.5#'
     stmts = [{'fmt': f, 'items': stmt_items(v, [';'], e)} for f, v, e in witnesses]
     cand = [f for f in formats(3) if kinds_of.get(f)]
-    nC = 60 if quick else 700
+    nC = 40 if quick else 700
     for _ in range(nC):
-        f = ctx.rng.choice(cand)
-        if ctx.rng.random() < 0.35:
-            f = f + ctx.rng.choice(['#', '.#', ' &', '-', ',#', '_#', '!'])
+        f = rngC.choice(cand)
+        if rngC.random() < 0.35:
+            f = f + rngC.choice(['#', '.#', ' &', '-', ',#', '_#', '!'])
             if f not in kinds_of:
-                pr = vlib.run_model(exe, [[2, f]])[0]
-                kinds_of[f] = field_kinds(pr)
-        kinds = kinds_of[f]
-        if kinds is None:
-            kinds = []
-        r = ctx.rng.random()
+                kinds_of[f] = field_kinds(vlib.run_model(exe, [[2, f]])[0])
+        kinds = kinds_of[f] or []
+        r = rngC.random()
         vs = []
         for i, kd in enumerate(kinds):
             pool = [p for p in (NUM if kd == 'n' else STR) if p[1] is not None]
             if r > 0.93:
-                pool = [p for p in NUM + STR if p[1] is not None]
-            vs.append(ctx.rng.choice(pool)[0])
+                pool = [p for p in NUM + STR + [EMPTY] if p[1] is not None]
+            vs.append(rngC.choice(pool)[0])
         if r < 0.04 and vs:
             vs = vs[:-1]
         elif r < 0.08:
             vs = vs + [NUM[12][0]]
-        end = ctx.rng.choice([None, None, ';', ','])
-        seps = ctx.rng.choice(seps_opts)
+        end = rngC.choice([None, None, ';', ','])
+        seps = rngC.choice(seps_opts)
         stmts.append({'fmt': f, 'items': stmt_items(vs, seps, end)})
     casesC = []
     for s in stmts:
-        src = stmt_source(s['fmt'], s['items'], lits)
+        src = stmt_source(s['fmt'], s['items'])
         for level in (0, 1, 2):
             for dbg in (False, True):
                 casesC.append({'fmt': s['fmt'], 'items': s['items'], 'src': src,
                                'level': level, 'debug': dbg})
-    rawsC = vlib.run_impl('usingfn.run_src', casesC)
-    mC = vlib.run_model(exe, [[4, [mval(x) for x in enc_stack(c['fmt'], c['items'])]] for c in casesC])
-    sC = vlib.run_model(exe, [[3, c['fmt'], [mval(x) for x in c['items'] if x not in (';', ',')]]
-                              for c in casesC])
-    for c, raw, mp, mo in zip(casesC, rawsC, mC, sC):
-        if isinstance(raw, dict) and raw.get('harness'):
-            ctx.broken.append('correspondence compiled_using: implementation worker failed')
-            break
-        if isinstance(mp, str) or isinstance(mo, str):
-            ctx.broken.append(f'correspondence compiled_using: model driver failed on {c!r}')
-            break
-        text = f"-O{c['level']}{' -g' if c['debug'] else ''}: {c['src']}"
-        if 'exc' in raw and 'events' not in raw:
-            # the compiler (not the machine) raised: not a PRINT USING matter
-            ctx.report(f"C19/compile-failed({raw['exc']})", {'case': c, 'raw': raw, 'text': text}, False)
-            continue
-        calls = [l2s(e[1]) for e in raw['events'] if e[0] == 'terminal_print']
-        if 'exc' in raw:
-            impl = [2, EXC.get(raw['exc'], 99)]
-            if calls:
-                ctx.report('C19/output-before-crash', {'case': c, 'raw': raw, 'text': text}, True)
-        elif raw['outcome'][1] is not None:
-            impl = [1]
-        else:
-            impl = [0, calls]
-            if raw['stack'] != 0:
-                ctx.report('C19/compiled-statement-leaves-stack', {'case': c, 'raw': raw}, True)
-        judge_stmt(ctx, 'compiled_using', (mp, mo), c, impl, text)
-    ctx.count('compiled_using', len(casesC), set(c['src'] for c in casesC))
-    ctx.sample({'suite': 'compiled_using', 'case': casesC[len(casesC) // 2]['src']})
-    ctx.rule.append(f'C: {len(witnesses)} fixed statements (one per defect class and per guarded feature) + '
-                    f'{nC} seeded PRINT USING statements (formats of length <= 3 with a field, 35% extended '
-                    f'by a suffix; matched values, 8% wrong count, 7% any type; ending none ; ,) compiled by '
-                    f'the real compiler at levels 0,1,2 x debug on/off, run on the real machine; text of '
-                    f'terminal_print judged against the model, the Coq specification and no-host-exception')
+    run_compiled_suite(ctx, exe, casesC)
+    mark('compiled_using')
+    ctx.rule.append(f'compiled_using: {len(witnesses)} fixed statements (one per defect class and per guarded '
+                    f'feature) + {nC} seeded PRINT USING statements (formats of length <= 3 with a field, '
+                    f'35% extended by a suffix; matched values, 8% wrong count, 7% any type; ending none ; ,) '
+                    f'compiled by the real compiler at levels 0,1,2 x debug on/off, run on the real machine; '
+                    f'terminal_print calls judged against the model, the Coq specification and '
+                    f'no-host-exception')
     return ctx.finish()
 
 
+def _ctx_keeping_replays(tier):
+    """Ctx() clears the replay files of the property; a replay must not"""
+    pat = os.path.join(vlib.VERIF, 'replays', f'{PROP}-*.json')
+    saved = {f: open(f, 'rb').read() for f in glob.glob(pat)}
+    ctx = Ctx(PROP, tier, 0, 'proof')
+    for f, b in saved.items():
+        open(f, 'wb').write(b)
+    return ctx
+
+
 def replay(path):
+    """re-run the recorded case on the implementation and the model; exit 1
+    when it still fails (violation or known finding), 0 when it no longer does"""
     d = json.load(open(path))
-    print(json.dumps(d, indent=1)[:6000])
-    return 0
+    first = d.get('first') or {}
+    print(f"replay {path}: signature {d.get('signature')}")
+    if d.get('no_longer_checks'):
+        print('broken obligations:', d['no_longer_checks'])
+        print(d.get('detail', '')[-2000:])
+        ctx = _ctx_keeping_replays('replay')
+        ok = ctx.prove()
+        print('Coq obligations now', 'hold' if ok and not ctx.broken else 'still broken')
+        return 0 if ok and not ctx.broken else 1
+    suite, case = first.get('suite'), first.get('case')
+    print('input  :', first.get('text'))
+    print('recorded: impl', first.get('impl'), '| model', first.get('model'), '| spec', first.get('spec'),
+          '| reasons', first.get('reasons'))
+    ctx = _ctx_keeping_replays('replay')
+    exe = ctx.model('Using')
+    if suite == 'scanner':
+        scanner_suite(ctx, exe, [case['fmt']])
+        verdicts = ['violation'] if ctx.violations else ['ok']
+    elif suite in SUITE_RUNNERS:
+        verdicts = SUITE_RUNNERS[suite](ctx, exe, [case])
+    else:
+        print('no runnable case in this replay file')
+        return 1
+    for v in ctx.violations:
+        dd = v['detail']
+        print('now    : VIOLATION', v['signature'], '| impl', dd.get('impl'), '| model', dd.get('model'),
+              '| spec', dd.get('spec'))
+    for k, hits in ctx.known_hits.items():
+        dd = hits[0]
+        print('now    : known finding', k, '| impl', dd.get('impl'), '| spec', dd.get('spec'))
+    if ctx.broken:
+        print('harness:', ctx.broken)
+    bad = bool(ctx.violations or ctx.known_hits or ctx.broken)
+    print('result :', 'still fails' if bad else 'passes now')
+    return 1 if bad else 0
